@@ -204,19 +204,27 @@ func (msg Message) Generate(w io.Writer, settings GenerateSettings) {
 
 func writeMessageFieldUnmarshaller(name string, typ FieldType, w *iohelp.ErrorWriter, settings GenerateSettings, depth int) {
 	if typ.Array != nil {
-		writeLineWithTabs(w, "%RECV = make([]%TYPE, iohelp.ReadUint32(r))", depth, name, typ.Array.goString(settings))
 		if typ.Array.Simple == typeByte {
-			writeLineWithTabs(w, "r.Read(%RECV)", depth, name)
+			writeLineWithTabs(w, "%RECV = iohelp.ReadBytes(r)", depth, name)
 		} else {
-			writeLineWithTabs(w, "for i := range %RECV {", depth, name)
-			writeMessageFieldUnmarshaller("("+name+")[i]", *typ.Array, w, settings, depth+1)
+			// the count comes off the wire: grow the slice as elements arrive instead of
+			// allocating for it up front, and stop at the first failed read
+			cntName := depthName("cnt", depth)
+			iName := depthName("i", depth)
+			writeLineWithTabs(w, "{", depth)
+			writeLineWithTabs(w, "\t"+cntName+" := iohelp.ReadUint32(r)", depth)
+			writeLineWithTabs(w, "\t%RECV = make([]%TYPE, 0, iohelp.CapCount("+cntName+"))", depth, name, typ.Array.goString(settings))
+			writeLineWithTabs(w, "\tfor "+iName+" := uint32(0); "+iName+" < "+cntName+" && r.Err == nil; "+iName+"++ {", depth, name)
+			writeLineWithTabs(w, "\t\t%RECV = append(%RECV, *new(%TYPE))", depth, name, typ.Array.goString(settings))
+			writeMessageFieldUnmarshaller("("+name+")["+iName+"]", *typ.Array, w, settings, depth+2)
+			writeLineWithTabs(w, "\t}", depth)
 			writeLineWithTabs(w, "}", depth)
 		}
 	} else if typ.Map != nil {
 		lnName := depthName("ln", depth)
 		writeLineWithTabs(w, lnName+" := iohelp.ReadUint32(r)", depth)
 		writeLineWithTabs(w, "%RECV = make("+typ.Map.goString(settings)+")", depth, name)
-		writeLineWithTabs(w, "for i := uint32(0); i < "+lnName+"; i++ {", depth, name)
+		writeLineWithTabs(w, "for i := uint32(0); i < "+lnName+" && r.Err == nil; i++ {", depth, name)
 		ln := getLineWithTabs(settings.typeUnmarshallers[typ.Map.Key], depth+1, "&"+depthName("k", depth))
 		w.SafeWrite([]byte(strings.Replace(ln, "=", ":=", 1)))
 		writeMessageFieldUnmarshaller("("+name+")["+depthName("k", depth)+"]", typ.Map.Value, w, settings, depth+1)
